@@ -433,7 +433,9 @@ def iterInsert (pos : Int) (v : Value) (xs : VL) : VL :=
 
 def setOf (args : VL) : VL := sOfList (list_ args)
 def union (a b : VL) : VL := sUnion a b
-def intersect (a b : VL) : VL := sInter a b
+/-- `a.intersection(b)`: CPython walks the smaller set (`b` on a tie) and keeps *its* elements -
+    visible when `1` and `True` meet -/
+def intersect (a b : VL) : VL := if b.length > a.length then sInter a b else sInter b a
 def difference (a b : VL) : VL := sDiff a b
 def symmetricDifference (a b : VL) : VL := sSymDiff a b
 def setAdd (s vals : VL) : VL := sUnion s (sOfList vals)
